@@ -27,9 +27,8 @@ theorem C01_eq_replaces (orc : Oracle) (k : Nat) (ci : CfgInfo) (o : Opt) (v : B
   unfold setopt
   rw [setoptConvert_int orc k o v n ho hv]
   have hty : o.ty = .int := ho.1
-  simp [hreset, freeValue, Opt.setFlags, Opt.vals, Opt.flags, Opt.ty, Opt.info, hty]
   obtain ⟨i, f, s, vs, c⟩ := o
-  simp_all [Opt.ty, Opt.info, Opt.vals, Opt.flags, Opt.subs, Opt.comment]
+  simp_all [dropDefaults, setoptStore, freeValue, Opt.setFlags, Opt.ty, Opt.info, Opt.vals, Opt.flags, Opt.subs, Opt.comment]
 
 /-- **'+=' appends, also to defaults**: with RESET cleared (what the parser does on `+=`), a value
 stored into a list option goes after everything the option holds. -/
@@ -40,7 +39,7 @@ theorem C01_pluseq_appends (orc : Oracle) (k : Nat) (ci : CfgInfo) (o : Opt) (v 
   rw [setoptConvert_int orc k o v n ho hv]
   have hty : o.ty = .int := ho.1
   obtain ⟨i, f, s, vs, c⟩ := o
-  simp_all [Opt.ty, Opt.info, Opt.vals, Opt.flags, Opt.subs, Opt.comment, Opt.setFlags]
+  simp_all [dropDefaults, setoptStore, freeValue, Opt.setFlags, Opt.ty, Opt.info, Opt.vals, Opt.flags, Opt.subs, Opt.comment, Opt.setFlags]
 
 /-- **a repeated scalar keeps the last value**: a scalar that already holds an explicit value is
 overwritten in place (one value before, one value after). -/
@@ -52,7 +51,7 @@ theorem C01_scalar_last_wins (orc : Oracle) (k : Nat) (ci : CfgInfo) (o : Opt) (
   rw [setoptConvert_int orc k o v n ho hv]
   have hty : o.ty = .int := ho.1
   obtain ⟨i, f, s, vs, c⟩ := o
-  simp_all [Opt.ty, Opt.info, Opt.vals, Opt.flags, Opt.subs, Opt.comment, Opt.setFlags, listSet]
+  simp_all [dropDefaults, setoptStore, freeValue, Opt.setFlags, Opt.ty, Opt.info, Opt.vals, Opt.flags, Opt.subs, Opt.comment, Opt.setFlags, listSet]
 
 /-- **rejected text changes nothing** (shared with C10): an unconvertible value leaves the option
 record untouched and reports one diagnostic. -/
@@ -80,7 +79,7 @@ theorem C01_multi_accumulates (orc : Oracle) (k : Nat) (ci : CfgInfo) (o : Opt)
   rw [setoptConvert_sec orc k o none ho.1]
   obtain ⟨i, f, s, vs, c⟩ := o
   have h1 := ho.1; have h2 := ho.2
-  simp_all [Opt.ty, Opt.info, Opt.vals, Opt.flags, Opt.subs, Opt.comment, Opt.setFlags, mkSection, Opt.name]
+  simp_all [dropDefaults, setoptStore, freeValue, Opt.setFlags, Opt.ty, Opt.info, Opt.vals, Opt.flags, Opt.subs, Opt.comment, Opt.setFlags, mkSection, Opt.name]
 
 /-- **a new title appends**: titled multi section, title not present yet. -/
 theorem C01_new_title_appends (orc : Oracle) (k : Nat) (ci : CfgInfo) (o : Opt) (t : Bytes)
@@ -91,7 +90,7 @@ theorem C01_new_title_appends (orc : Oracle) (k : Nat) (ci : CfgInfo) (o : Opt) 
   rw [setoptConvert_sec orc k o (some t) ho.1]
   obtain ⟨i, f, s, vs, c⟩ := o
   have h1 := ho.1; have h2 := ho.2
-  simp_all [Opt.ty, Opt.info, Opt.vals, Opt.flags, Opt.subs, Opt.comment, Opt.setFlags, mkSection, Opt.name]
+  simp_all [dropDefaults, setoptStore, freeValue, Opt.setFlags, Opt.ty, Opt.info, Opt.vals, Opt.flags, Opt.subs, Opt.comment, Opt.setFlags, mkSection, Opt.name]
 
 /-- **a repeated title replaces that section in place** (same position, fresh contents), unless
 titles must be unique. -/
@@ -107,7 +106,7 @@ theorem C01_repeated_title_replaces (orc : Oracle) (k : Nat) (ci : CfgInfo) (o :
   have hne : vs ≠ [] := by
     intro e; subst e; simp [Opt.vals] at hold
   have hlen : (vs.length == 0) = false := by cases vs <;> simp_all
-  simp_all [Opt.ty, Opt.info, Opt.vals, Opt.flags, Opt.subs, Opt.comment, Opt.setFlags, mkSection, Opt.name]
+  simp_all [dropDefaults, setoptStore, freeValue, Opt.setFlags, Opt.ty, Opt.info, Opt.vals, Opt.flags, Opt.subs, Opt.comment, Opt.setFlags, mkSection, Opt.name]
 
 /-- **unique titles**: with NO_TITLE_DUPES a repeated title is refused, the option is unchanged and
 a diagnostic is reported. -/
@@ -124,7 +123,7 @@ theorem C01_unique_title_rejected (orc : Oracle) (k : Nat) (ci : CfgInfo) (o : O
     cases vs with
     | nil => simp [findTitle, Opt.vals] at hfound
     | cons _ _ => simp
-  simp_all [Opt.ty, Opt.info, Opt.vals, Opt.flags, Opt.subs, Opt.comment, Opt.setFlags]
+  simp_all [dropDefaults, setoptStore, freeValue, Opt.setFlags, Opt.ty, Opt.info, Opt.vals, Opt.flags, Opt.subs, Opt.comment, Opt.setFlags]
 
 /-- **a re-opened single section is merged**: the existing instance is kept as it is (the parser
 then continues *inside* it), nothing is re-created or reset. -/
@@ -135,7 +134,7 @@ theorem C01_single_section_merges (orc : Oracle) (k : Nat) (ci : CfgInfo) (o : O
   rw [setoptConvert_sec orc k o t ho.1]
   obtain ⟨inf, f, s, vs, cm⟩ := o
   have h1 := ho.1; have h2 := ho.2
-  simp_all [Opt.ty, Opt.info, Opt.vals, Opt.flags, Opt.subs, Opt.comment, Opt.setFlags, listSet]
+  simp_all [dropDefaults, setoptStore, freeValue, Opt.setFlags, Opt.ty, Opt.info, Opt.vals, Opt.flags, Opt.subs, Opt.comment, Opt.setFlags, listSet]
 
 /-- **unmentioned options keep their declared defaults**: a freshly created context holds, for a
 scalar integer declaration, exactly the declared default, marked pristine. -/
